@@ -339,6 +339,67 @@ func extractC05() *lean {
 		}
 		l.sb.WriteString("-- constant " + c + " not found\n")
 	}
+	// ---- vcr/issuer: the OpenID4VCI pre-authorized code
+	vci := c05Load("vcr/issuer")
+	identCalls := func(fd *ast.FuncDecl) []string {
+		var res []string
+		if fd == nil || fd.Body == nil {
+			return []string{"MISSING"}
+		}
+		ast.Inspect(fd.Body, func(n ast.Node) bool {
+			if c, ok := n.(*ast.CallExpr); ok {
+				if sel, ok := c.Fun.(*ast.SelectorExpr); ok {
+					full := exprString(sel.X)
+					if strings.HasSuffix(full, "tore") { // i.store, refStore, flowStore
+						res = append(res, full[strings.LastIndex(full, ".")+1:]+"."+sel.Sel.Name)
+					}
+				}
+			}
+			return true
+		})
+		return res
+	}
+	tokenCalls := identCalls(vci.funcs["openidHandler.HandleAccessTokenRequest"])
+	l.def("vciTokenCalls", "List String", leanStrList(tokenCalls), tokenCalls)
+	fad := vci.funcs["openidMemoryStore.FindAndDeleteReference"]
+	fadCalls := identCalls(fad)
+	l.def("vciFindAndDeleteCalls", "List String", leanStrList(fadCalls), fadCalls)
+	if fad != nil {
+		// refStore := o.sessionDatabase.GetStore(TokenTTL, "openid4vci", refType)
+		done := false
+		ast.Inspect(fad.Body, func(n ast.Node) bool {
+			as, ok := n.(*ast.AssignStmt)
+			if !ok || done || len(as.Lhs) != 1 || len(as.Rhs) != 1 || exprString(as.Lhs[0]) != "refStore" {
+				return true
+			}
+			c, ok := as.Rhs[0].(*ast.CallExpr)
+			if !ok || len(c.Args) < 2 {
+				return true
+			}
+			if t, ok := vci.durSeconds(c.Args[0]); ok {
+				l.def("vciTokenTTL", "Nat", fmt.Sprint(t), t)
+			}
+			var pre []string
+			for _, a := range c.Args[1:] {
+				if b, ok := a.(*ast.BasicLit); ok {
+					v, _ := strconv.Unquote(b.Value)
+					pre = append(pre, v)
+				} else {
+					pre = append(pre, "<"+exprString(a)+">")
+				}
+			}
+			l.def("vciRefPrefix", "List String", leanStrList(pre), pre)
+			done = true
+			return true
+		})
+	}
+	if v, ok := vci.consts["preAuthCodeRefType"]; ok {
+		if b, ok := v.(*ast.BasicLit); ok {
+			rt, _ := strconv.Unquote(b.Value)
+			l.def("vciPreAuthRefType", "String", fmt.Sprintf("%q", rt), rt)
+		}
+	}
+
 	ver := c05Load("vcr/verifier")
 	if v, ok := ver.consts["maxSkew"]; ok {
 		if s, ok := ver.durSeconds(v); ok {
